@@ -23,7 +23,7 @@ type lineCtx struct {
 	chain    []*flags.Command
 	argv     []string // the command path
 	boolOpts []string // spellings of flags in scope that are unique there ("-x", "--long")
-	strOpts  []string // "--long" of string options in scope, unique there
+	strOpts  []string // "--long" / "-s" of string options in scope, unique there
 	declared map[string]bool
 }
 
@@ -155,6 +155,10 @@ func (lc *lineCtx) scopeOf() {
 		case "str":
 			if longOK && !strings.Contains(string(o.Field().Tag), "unquote:") {
 				lc.strOpts = append(lc.strOpts, "--"+ln)
+			}
+			// (the short spelling too, multi-byte names among them: -ö=V, -ö V)
+			if shortOK && !strings.Contains(string(o.Field().Tag), "unquote:") {
+				lc.strOpts = append(lc.strOpts, "-"+string(o.ShortName))
 			}
 		}
 	})
@@ -732,9 +736,11 @@ func checkC08Words(c *Ctx, n int) {
 		argv := append([]string{}, lc.argv...)
 		x := lc.active()
 		word := ""
+		given := false // (the EMPTY string is a word too: an unrecognised word, not "no word")
 		var tail []tok
 		if r.Intn(2) == 0 {
-			word = []string{"zzword", "origin", "w"}[r.Intn(3)]
+			given = true
+			word = []string{"zzword", "origin", "w", "", " "}[r.Intn(5)]
 			if lc.isCommandWord(word) {
 				continue
 			}
@@ -764,7 +770,7 @@ func checkC08Words(c *Ctx, n int) {
 			for _, o := range parseBlocks(cr) {
 				obs = o
 			}
-			c.Class(fmt.Sprintf("c08/words: depth=%d word=%v has-subcommands=%v optional=%v afternonoption=%v", len(lc.chain)-1, word != "", hasSubs, x.SubcommandsOptional, after))
+			c.Class(fmt.Sprintf("c08/words: depth=%d word=%v empty=%v has-subcommands=%v optional=%v afternonoption=%v", len(lc.chain)-1, given, given && word == "", hasSubs, x.SubcommandsOptional, after))
 			in := map[string]interface{}{"case": cs.Description, "argv": argv, "command_path": lc.argv, "innermost": x.Name,
 				"innermost_has_subcommands": hasSubs, "innermost_subcommands_optional": x.SubcommandsOptional}
 			if warm != nil {
@@ -780,7 +786,7 @@ func checkC08Words(c *Ctx, n int) {
 			case obs.panic != "":
 				fail(got, "normal return")
 				return
-			case hasSubs && !x.SubcommandsOptional && word == "":
+			case hasSubs && !x.SubcommandsOptional && !given:
 				if !(obs.errKind == "flags" && obs.errType == int(flags.ErrCommandRequired)) {
 					fail(got, "ErrCommandRequired")
 					return
@@ -792,7 +798,7 @@ func checkC08Words(c *Ctx, n int) {
 				}
 			default:
 				var wantRet []string
-				if word != "" {
+				if given {
 					wantRet = append(wantRet, word)
 					for _, t := range tail {
 						if t.kind == "W" {
